@@ -626,7 +626,8 @@ type functionListenerInvocation struct {
 func (ce *callEngine) recoverOnCall(ctx context.Context, m *wasm.ModuleInstance, v interface{}) (err error) {
 	if s, ok := v.(*snapshot); ok {
 		// A snapshot that wasn't handled was created by a different call engine possibly from a nested wasm invocation,
-		// let it propagate up to be handled by the caller.
+		// let it propagate up to be handled by the caller. This call is over: allows the reuse of CallEngine.
+		ce.stack, ce.frames = ce.stack[:0], ce.frames[:0]
 		panic(s)
 	}
 
